@@ -32,11 +32,20 @@ var namedTypes = []ntype{
 	{"unsafe", "Pointer", 0, "unsafe", true, false},
 }
 
-var allPkgs = []string{pAO, pBO, pJSON, pUser, pV2, "time", "net/url", "encoding/json", "math/big", "sync/atomic"}
+var allPkgs = append([]string{pAO, pBO, pJSON, pUser, pV2, "time", "net/url", "encoding/json", "math/big", "sync/atomic"}, predeclPkgs...)
+
+func init() {
+	// packages whose candidate import name is a predeclared identifier: string.T, error.T, len.T ...
+	for _, p := range predeclPkgs {
+		namedTypes = append(namedTypes, ntype{p, "T", 0, "struct", true, false})
+	}
+}
 
 // paths that exist nowhere: they only occupy names in the tracker of the target file
 var ghostPkgs = []string{"example.com/other/o", "example.com/o", "github.com/acme/json", "example.com/x/user", "example.com/ao", "example.com/bo",
-	"example.com/deep/time", "k8s.io/apis/core/v2", "example.com/big"}
+	"example.com/deep/time", "k8s.io/apis/core/v2", "example.com/big",
+	// candidate names that are predeclared identifiers, directly or through the numbered fallback (float3 + "2")
+	"example.com/x/error", "example.com/string", "example.com/y/any", "example.com/int", "len", "nil", "uint8", "float3", "float-3", "int3", "int-3", "int_3"}
 
 const targetPkg = "example.com/gen/target"
 
@@ -335,9 +344,22 @@ func (prop) Generate(r *core.RNG, tier string) []json.RawMessage {
 			both(retarget(t, tg.self), tg.self, tg.pre, "")
 		}
 	}
-	// a package whose tracker name is a predeclared identifier (known-finding class import_name_predeclared)
+	// packages whose candidate import name is a predeclared identifier (fixes/C03-3: the tracker must not use it)
 	both(&Ty{K: "struct", Fields: []Field{fld("A", bt("string"), ""), fld("B", named(ntype{Pkg: pStr, Name: "T"}), "")}}, targetPkg, nil, "")
 	both(named(list, named(ntype{Pkg: pStr, Name: "T"})), targetPkg, nil, "")
+	{
+		pt := func(seg string) *Ty { return named(ntype{Pkg: fxRoot + seg, Name: "T"}) }
+		both(&Ty{K: "struct", Fields: []Field{fld("E", errT, ""), fld("F", pt("error"), ""), fld("A", &Ty{K: "any"}, ""), fld("B", pt("any"), ""),
+			fld("I", bt("int"), ""), fld("J", pt("int"), ""), fld("K", bt("bool"), ""), fld("L", pt("bool"), "")}}, targetPkg, nil, "")
+		both(&Ty{K: "map", Key: bt("string"), Elem: &Ty{K: "slice", Elem: pt("string")}}, targetPkg, []string{"example.com/string", "string"}, "")
+		both(named(pair, pt("int"), bt("int")), targetPkg, nil, "")
+		both(named(pair, bt("string"), pt("any")), pAO, nil, "")
+		both(&Ty{K: "struct", Fields: []Field{fld("A", pt("len"), ""), fld("B", pt("new"), ""), fld("C", pt("nil"), ""), fld("D", pt("true"), ""), fld("E", pt("iota"), "")}}, targetPkg, nil, "")
+		// the numbered fallback lands on a predeclared name: float3, float-3 -> float32; int3, int-3 -> int32
+		both(&Ty{K: "struct", Fields: []Field{fld("A", bt("float32"), ""), fld("B", bt("int32"), ""), fld("C", named(item), "")}}, targetPkg,
+			[]string{"float3", "float-3", "int3", "int-3"}, "")
+		both(&Ty{K: "ptr", Elem: pt("error")}, targetPkg, []string{fxRoot + "string", "example.com/x/error"}, "T")
+	}
 	// the dispatch of ident.Frag on other argument kinds (tie only)
 	for _, s := range []string{pAO + ".Item", pAO + ".List[" + pAO + ".Item]", "int", "", ".", "a.", ".b", "time.Duration", pAO + ".Pair[string," + pBO + ".Item]",
 		"x.y[", "[]" + pAO + ".Item", pAO + ".M[" + pAO + ".L[" + pAO + ".P[a,b],c]]"} {
